@@ -418,29 +418,29 @@ static struct Register {
 #endif
 #if SEL(5, 1)
 		addUnit<PolPlain<MT> >("C05/flat/stdmutex", 0, flat, 4, 30, 0, 0);
-		addUnit<PolPlain<VThreading> >("C05/nested/vmutex", 0, nest, 4, 5, 1, 2);
+		addUnit<PolPlain<VThreading> >("C05/nested/vmutex", 0, nest, 4, 4, 1, 2);
 #endif
 #if SEL(5, 2)
 		addUnit<PolPlain<ST> >("C05/nested/single", 0, nest, 4, 5, 1, 2);
-		addUnit<PolPlain<ST> >("C05/nested-consume/single", 0, nestC, 4, 5, 1, 2);
+		addUnit<PolPlain<ST> >("C05/nested-consume/single", 0, nestC, 4, 4, 1, 2);
 #endif
 #if SEL(13, 0)
 		{ Cfg c = flat; c.ordered = true; c.nKeys = 3; c.cmpKind = 0;
 		  addUnit<PolOrdered<ST, CmpAsc> >("C13/flat/ascending", 0, c, 5, 30, 0, 0);
 		  Cfg n = c; n.nested = true; n.nestedConsume = true;
-		  addUnit<PolOrdered<ST, CmpAsc> >("C13/nested/ascending", 0, n, 4, 5, 1, 2); }
+		  addUnit<PolOrdered<ST, CmpAsc> >("C13/nested/ascending", 0, n, 4, 4, 1, 2); }
 #endif
 #if SEL(13, 1)
 		{ Cfg c = flat; c.ordered = true; c.nKeys = 3; c.cmpKind = 1;
 		  addUnit<PolOrdered<ST, CmpDesc> >("C13/flat/descending", 0, c, 5, 30, 0, 0);
 		  Cfg n = c; n.nested = true;
-		  addUnit<PolOrdered<VThreading, CmpDesc> >("C13/nested/descending-vmutex", 0, n, 4, 5, 1, 2); }
+		  addUnit<PolOrdered<VThreading, CmpDesc> >("C13/nested/descending-vmutex", 0, n, 4, 4, 1, 2); }
 #endif
 #if SEL(13, 2)
 		{ Cfg c = flat; c.ordered = true; c.nKeys = 3; c.cmpKind = 2; c.K = 4;
 		  addUnit<PolOrdered<ST, CmpMod2> >("C13/flat/mod2-classes", 0, c, 5, 30, 0, 0);
 		  Cfg n = c; n.nested = true; n.K = 3;
-		  addUnit<PolOrdered<ST, CmpMod2> >("C13/nested/mod2-classes", 0, n, 4, 5, 1, 2); }
+		  addUnit<PolOrdered<ST, CmpMod2> >("C13/nested/mod2-classes", 0, n, 4, 4, 1, 2); }
 #endif
 #if SEL(8, 0)
 		{ Cfg c = nestC; c.ledgerOnly = true;
